@@ -25,12 +25,17 @@
    are free), copybook_ok of both, respelling_domain of both - and text_layout_ok (text_values_ok) of the FIRST only; that the
    second satisfies it too is part of the conclusion.  C07b_respelling's hypothesis on names follows from text_layout_ok.
 
-   What respelling_domain excludes are the known findings of C12 / C07, whose refutations stay where they are (Props/C12b.v,
-   Props/C07.v, Judge/JC12.v): a reserved word PIC / PICTURE / USAGE / IS or a usage word in lower case (K-C12-lowercase: the
-   decoder's pattern is case-sensitive), a usage word or PIC inside a data name (C07-K3 keyword-prefixed names) or inside a VALUE
-   literal (K-C12-value-literal-reparsed), FILLER in another letter case.  A picture STRING in another letter case
-   (X(3) / x(3)) or followed by a separator (K-C12-separator-after-picture) is not a respelling in the sense of same_clauses at
-   all: the picture text is part of the clause content.  C12d_outside_domain shows one entry of each kind outside the domain. *)
+   What respelling_domain excludes are the known findings of C12, whose refutations stay where they are (Props/C12b.v,
+   Judge/JC12.v): a reserved word PIC / PICTURE / USAGE / IS or a usage word in lower case (K-C12-lowercase: the decoder's
+   pattern is case-sensitive), a usage word or PIC inside a VALUE literal (K-C12-value-literal-reparsed), FILLER in another
+   letter case.  A usage word or PIC inside a DATA NAME is NOT excluded any more: that was the decoder-side finding
+   K-name-contains-usage (estruct.clause_pattern searched without word boundaries: EMP-COMPANY, WS-COMP-DATE, TOT-BINARY-CT),
+   now repaired; Props/C04e.v proves that respelling_domain does not depend on the data name (C04e_domain_is_about_clauses) and
+   keeps the refutation for the pre-repair pattern.  It is a different defect from C07-K3 (keyword-PREFIXED names such as COMPANY,
+   cut by the FIRST parse, cobol_parser.CLAUSES): those names are not printable (ce_ok = false) and stay outside copybook_ok, not
+   outside respelling_domain.  A picture STRING in another letter case (X(3) / x(3)) or followed by a separator
+   (K-C12-separator-after-picture) is not a respelling in the sense of same_clauses at all: the picture text is part of the
+   clause content.  C12d_outside_domain shows one entry of each kind. *)
 From Coq Require Import NArith ZArith List Bool Permutation.
 Import ListNotations.
 Require Import SR.Base.Res SR.Model.RefFormat SR.Spec.RefFormat SR.Spec.Clauses.
@@ -173,7 +178,9 @@ Proof. vm_compute. split; reflexivity. Qed.
 
 (* ------------------------------------------------------------------ what respelling_domain excludes: one entry of each kind *)
 (*   05 A pic X(3).                  a reserved word in lower case: printable, outside the respelling domain
-     05 COMPANY PIC X(3) .          a usage word inside a data name (C07-K3): not even printable
+     05 COMPANY PIC X(3) .          a data name that begins with a usage word (C07-K3, the FIRST parse): not printable; the
+                                    decoder's second parse has no objection since its pattern has word boundaries
+                                    (respelling_domain = true; it was false before the repair of K-name-contains-usage)
      05 A PIC X(3) VALUE 'PIC 9' .  PIC inside a VALUE literal: printable, outside the respelling domain (the decoder takes the
                                     literal's 9 and the apostrophe for the picture: ValueError instead of the size 3) *)
 Definition e_lower : centry :=
@@ -183,7 +190,7 @@ Definition e_value : centry := mkce 48 53 [CName [65]; CPicture p_X_3; CValue [3
 
 Example C12d_outside_domain :
   ce_ok e_lower = true /\ respelling_domain e_lower = false
-  /\ ce_ok e_company = false /\ respelling_domain e_company = false
+  /\ ce_ok e_company = false /\ respelling_domain e_company = true
   /\ ce_ok e_value = true /\ respelling_domain e_value = false
   /\ calcsize_text (ctext (spec_entry e_value)) = RErr ValueError.
 Proof. vm_compute. repeat split; reflexivity. Qed.
